@@ -184,4 +184,27 @@ CHECKS = {
             {"name": "fuzzmem", "test": "FuzzNegotiate", "fuzz": True, "fuzztime": "120s", "thorough_only": True},
         ],
     },
+    "C19": {
+        "pkg": "c19",
+        "level": "exploration",
+        "level_text": ("Generated option lists (the full catalogue of 45 driver/options functions with valid and, where validated, invalid "
+                       "values; subsets, permutations, duplicates) through all four constructors; for the platform constructor a YAML "
+                       "definition is generated whose options block uses the names platform/options.go recognises (one case in five uses "
+                       "every name) with values of the documented type, plus conflicting user options. Oracle: a reference table option -> "
+                       "(object, field, last-wins | additive) applied in list order on top of a baseline snapshot taken from the same "
+                       "constructor without the generated options; every exported setting of Driver / Channel / Transport.Args / SSHArgs / "
+                       "implementation is compared, so an option touching a neighbouring field or a foreign object is caught. Separate "
+                       "sub-check for logging.NewInstance options (level validation, additive loggers, last formatter wins)."),
+        "level_note": ("Trusted: the reference table (written from the option docs), reflect-based identity of funcs/loggers/writers. "
+                       "PromptPattern is compared for the generic constructor only (network and NETCONF constructors derive it by design). "
+                       "WithNetconfPreferredVersion validates before checking its target, so an invalid version is expected to be rejected by every constructor."),
+        "technique": "property-based testing (rapid): generated option lists vs reference table over reflected field snapshots, metamorphic baseline",
+        "rule": ("constructor x 0-10 user options (25% duplicates of an earlier setting) x platform options block x conflicting user options. "
+                 "Non-trivial: >=4 options incl. a duplicate setting, or a platform/user conflict (options); >=3 options (logging). Distinct = sha1(case)."),
+        "assumptions": ["platform YAML values are of the documented type (int, string, float with decimal point, list of strings, flag)"],
+        "subs": [
+            {"name": "options", "test": "TestOptions", "quick": 6000, "thorough": 100000, "shards": 16},
+            {"name": "logging", "test": "TestLogging", "quick": 4000, "thorough": 50000, "shards": 4},
+        ],
+    },
 }
